@@ -16,7 +16,8 @@ RULE = ("(1) parallel_for(i0,i1,f,nth) on the real library for ranges -3 <= i0,i
         "by the Lean hand-over model (trace inclusion). Non-trivial = case that starts at least one thread")
 TRUSTED = ["harness/vsched.h deterministic scheduler over the ASL_VERIF hook points in Thread.h (hooks: /verif/hooks_commits.txt)",
            "the trace acceptor in lean/Driver/C13.lean (maps hook events to model steps)"]
-ASSUMPTIONS = ["pthread_create starts the function exactly once; pthread_join returns after the thread has exited and makes its writes visible",
+ASSUMPTIONS = ["parallel_for: i1 - i0 < 2^31 and i1 + nth < 2^31 (the loop variable `i += n` and `i1 - i0` are ints)",
+               "pthread_create starts the function exactly once; pthread_join returns after the thread has exited and makes its writes visible",
                "sem_post/sem_wait and pthread_cond_wait/broadcast behave as POSIX specifies (modelled, not verified)",
                "volatile bool ready/finished flags are read and written atomically with sequential consistency (x86-64)",
                "no int overflow in i += n (|i1| + nth < 2^31)"]
@@ -144,16 +145,23 @@ KNOWN = [{"key": "copied-thread-finished",
 
 TECHNIQUE = "Lean 4 theorems (arithmetic partition proof; invariant over an interleaving model for any number of workers) + trace inclusion of hook-point traces + exhaustive ranges"
 LEVEL_TEXT = ("Proved in Lean 4: for all integers i0, i1 and every nth >= 1 the workers of parallel_for run exactly the indices of "
-              "[i0,i1), none twice, nothing when i1 <= i0 (parallel_for_covers / _exactly_once); for any number of workers and every "
-              "interleaving of the creation/hand-over/join protocol no worker reads its stack context after the creator left the "
-              "scope, no finished flag is written into a deleted Thread, every body runs exactly once, join returns only after "
-              "completion and finished() is then true (handover_safe, runs_once_and_join, finished_after_join, never_twice), for "
-              "function threads and for subclassed threads; a counting semaphore conserves posts and refuses a wait only at count 0; "
-              "under the documented protocol a condition-variable waiter is never asleep after the signal and can always progress "
-              "once the signaler is done, for one waiter and for any number n of waiters with a broadcasting signal "
-              "(condition_no_lost_signal, condition_no_lost_signal_n). Tie: the index loop, thread kinds and semaphore are compared op by op with the real library "
-              "(all ranges -3..40 x nth), and every hook-point trace of the real creator/worker hand-over, enumerated over all "
-              "interleavings of small scenarios by a deterministic scheduler, must be accepted by the Lean model (trace inclusion).")
+              "[i0,i1), none twice, nothing when i1 <= i0 or nth = 0 (parallel_for_covers / _exactly_once / _zero_threads); for any "
+              "number of workers and every interleaving of the creation/hand-over/join protocol no worker reads or writes its stack "
+              "context after the creator left the scope, no finished flag is written into a deleted Thread, every body runs exactly "
+              "once, join returns only after completion and finished() is then true, the protocol never gets stuck (handover_safe, "
+              "runs_once_and_join, finished_after_join, never_twice, handover_progress), for function threads and for subclassed "
+              "threads; composed: when parallel_for has returned under any interleaving, f(i) has been invoked exactly once for every "
+              "i in [i0,i1) and for no other i (parallel_for_end_to_end). Semaphore with any number of waiting and posting threads: "
+              "the count is conserved in every interleaving and at quiescence the completed waits are exactly min(waits wanted, "
+              "initial + posts) (semaphore_no_lost_post_n, semaphore_post_wakes); under the documented protocol a condition-variable "
+              "waiter is never asleep after the signal and can always progress once the signaler is done, for one waiter and for any "
+              "number n of waiters with a broadcasting signal (condition_no_lost_signal, condition_no_lost_signal_n). Tie: the index "
+              "loop, thread kinds and semaphore are compared op by op with the real library (all ranges -3..40 x nth), and every "
+              "hook-point trace of the real creator/worker hand-over, enumerated over all interleavings of small scenarios by a "
+              "deterministic scheduler, must be accepted by the Lean model (trace inclusion).")
 LEVEL_NOTE = ("Trusted: pthread/sem/cond semantics as modelled, sequential consistency of the volatile flags, the scheduler harness and "
-              "the trace acceptor. The semaphore and condition models are abstractions of the POSIX primitives (asl only wraps "
-              "them); int overflow of the loop variable is excluded by hypothesis.")
+              "the trace acceptor. The semaphore and condition models are abstractions of the POSIX primitives (asl only wraps them) "
+              "and of the user protocol; spurious wake-ups are not modelled (the documented while(!pred) loop absorbs them). The index "
+              "theorems are over the mathematical integers: they describe the int code when i1 - i0 and i1 + nth do not overflow "
+              "(ASSUMPTIONS). A Thread object copied after start is outside the theorems (one object per worker): see the known "
+              "finding copied-thread-finished.")
